@@ -98,7 +98,8 @@ ApplyKind(st, fp, dir, limit) ==
 Apply(st, fp, dir, limit) ==
   LET r  == ApplyKind(st, fp, dir, limit)
       to == IF dir = "F" THEN fp.nperm ELSE fp.operm
-  IN [st  |-> [r.st EXCEPT !.perms = IF to # NoPerm THEN to ELSE st.perms],
+  \* a file that does not exist (any more) has no permissions
+  IN [st  |-> [r.st EXCEPT !.perms = IF r.st.deleted THEN NoPerm ELSE IF to # NoPerm THEN to ELSE st.perms],
       rep |-> [hunks |-> r.hunks, dir |-> dir, prevPerms |-> st.perms, prevDeleted |-> st.deleted]]
 
 (* Alg: rollback.  Hunks are undone last-to-first, each matched and spliced at
